@@ -251,15 +251,21 @@ Definition census_plane (inp : mc_input) (cl : img) (cr : Z -> img) (D : Z) : Z 
     if (0 <=? r') && (r' <? ny - 2 * off) && (p0 <=? c') && (c' <? p1) && (c' <? nx - 2 * off)
     then Some (popcount32b (Z.lxor (cl r' c') (cr i r' (q0 + (c' - p0))))) else None.
 
+(* Census / Zncc.compute_cost_volume return the cost volume all NaN when no window fits in the image:
+   min(rows, cols) < window_size (the transform / the rasters are not computed) *)
+Definition too_small (ny nx w : Z) : bool := Z.min ny nx <? w.
+
 Definition census_volume_z (inp : mc_input) (dmin dmax : Z) : Z -> Z -> Z -> option Z :=
   let ny := i_ny inp in let nx := i_nx inp in let s := i_s inp in let w := i_w inp in
   let off := offset w in
   let nd := nb_disp s dmin dmax in
-  let Rs := shifted_images inp in
-  let cl := memo2 (ny - 2 * off) (nx - 2 * off) (census_transform w (i_L inp)) in
-  let cr := memo1 s (fun i => memo2 (ny - 2 * off) (nx - 2 * off) (census_transform w (Rs i))) in
-  let planes := memo1 nd (fun k => memo2 ny nx (census_plane inp cl cr (disp_scaled s dmin k))) in
-  let cv := fun r c k => planes k r c in
+  let cv :=
+    if too_small ny nx w then fun _ _ _ => None else
+    let Rs := shifted_images inp in
+    let cl := memo2 (ny - 2 * off) (nx - 2 * off) (census_transform w (i_L inp)) in
+    let cr := memo1 s (fun i => memo2 (ny - 2 * off) (nx - 2 * off) (census_transform w (Rs i))) in
+    let planes := memo1 nd (fun k => memo2 ny nx (census_plane inp cl cr (disp_scaled s dmin k))) in
+    fun r c k => planes k r c in
   memo3 ny nx nd (cv_masked inp dmin dmax cv).
 
 Definition census_volume (inp : mc_input) (dmin dmax : Z) : Z -> Z -> Z -> option Q :=
@@ -309,26 +315,24 @@ Definition zncc_volume (inp : mc_input) (dmin dmax : Z) : Z -> Z -> Z -> option 
   let ny := i_ny inp in let nx := i_nx inp in let s := i_s inp in let w := i_w inp in
   let off := offset w in
   let nd := nb_disp s dmin dmax in
-  let Rs := shifted_images inp in
-  let ml := memo2 (ny - 2 * off) (nx - 2 * off) (sum_raster w ny nx (i_L inp)) in
-  let vl := memo2 (ny - 2 * off) (nx - 2 * off) (var_raster w ny nx (i_L inp)) in
-  let mr := memo1 s (fun i => memo2 (ny - 2 * off) (nx - 2 * off) (sum_raster w ny (shift_width nx i) (Rs i))) in
-  let vr := memo1 s (fun i => memo2 (ny - 2 * off) (nx - 2 * off) (var_raster w ny (shift_width nx i) (Rs i))) in
-  let planes := memo1 nd (fun k => memo2 ny nx (zncc_plane inp Rs ml vl mr vr (disp_scaled s dmin k))) in
-  let cv := fun r c k => planes k r c in
+  let cv :=
+    if too_small ny nx w then fun _ _ _ => None else
+    let Rs := shifted_images inp in
+    let ml := memo2 (ny - 2 * off) (nx - 2 * off) (sum_raster w ny nx (i_L inp)) in
+    let vl := memo2 (ny - 2 * off) (nx - 2 * off) (var_raster w ny nx (i_L inp)) in
+    let mr := memo1 s (fun i => memo2 (ny - 2 * off) (nx - 2 * off) (sum_raster w ny (shift_width nx i) (Rs i))) in
+    let vr := memo1 s (fun i => memo2 (ny - 2 * off) (nx - 2 * off) (var_raster w ny (shift_width nx i) (Rs i))) in
+    let planes := memo1 nd (fun k => memo2 ny nx (zncc_plane inp Rs ml vl mr vr (disp_scaled s dmin k))) in
+    fun r c k => planes k r c in
   memo3 ny nx nd (cv_masked inp dmin dmax cv).
 
 (* ------------------------------------------------------------------ inputs on which the step raises *)
 
-(* census_transform / compute_mean_raster build arrays of shape (ny - (w-1), nx - (w-1)): a negative
-   dimension raises ValueError (census also fails, AxisError, on a transformed image without rows).
-   sad / ssd never raise. *)
-Definition mc_raises (m : measure) (ny nx w s : Z) : bool :=
-  match m with
-  | Census => (ny <? w) || (nx <? w - 1) || ((1 <? s) && (nx - 1 <? w - 1))
-  | Zncc => (ny <? w - 1)
-  | _ => false
-  end.
+(* No measure raises on any image size: sad / ssd produce NaN through the index arithmetic, census / zncc return
+   early on an image smaller than the window ([too_small]); before that repair the census transform and the mean
+   rasters were built with a negative shape (ValueError / AxisError).  Kept so that the correspondence run still
+   compares "raises" with the code on every case. *)
+Definition mc_raises (m : measure) (ny nx w s : Z) : bool := false.
 
 (* attributes set by compute_cost_volume: type_measure (true = "min"), cmax *)
 Definition type_measure_min (m : measure) : bool := match m with Zncc => false | _ => true end.
